@@ -36,7 +36,9 @@ RULE = ('fault-position sweep over usage scripts of the two real transports: ser
         'bursts of 0-4 tagged calls issued with or without yielding (queued vs written), deadline events firing while queued / after '
         'writing, replies / duplicates / bogus tags / Rerr / junk frames, peer close / reset, Close(), requests on a closed '
         'transport, 30-45 s of virtual time for the ping loop with scripted random draws; injected faults on the n-th connect / '
-        'sendall / recv_into (exception, EOF, refusal, hang, slow connect that fails or succeeds); quick: seeded sample, thorough: '
+        'sendall / recv_into (exception, EOF, refusal, hang, write stalled after half a frame, slow connect that fails or succeeds); '
+        'peers that accept writes slowly (half of the buffer at once, the rest 1-14 ticks later) so that deadlines expire inside a '
+        'partially written frame; quick: seeded sample, thorough: '
         'seeded sample + exhaustive grid (every I/O operation index of the base scripts x every fault kind x in-flight set). '
         'non-trivial = a connection failure or time-out happened; distinct by canonical JSON of (case, observation)')
 TRUSTED = ['simulation world harness/vworld.py (virtual clock, fake gsocket) and harness/c08_drv.py (fake socket with hang / slow '
@@ -106,7 +108,7 @@ MUX_PLANS = [{'act': 'reply', 'delay': 0}, {'act': 'reply', 'delay': 2}, {'act':
              {'act': 'bogus', 'delay': 1, 'bogus_tag': 1}, {'act': 'bogus', 'delay': 1, 'bogus_tag': 77}, {'act': 'rerr', 'delay': 1},
              {'act': 'exc', 'delay': 0}]
 CONNECT_FAULTS = ['refuse', 'exc', 'timedout', ['slow', 6, 0], ['slow', 3, 1], 'hang']
-SEND_FAULTS = ['exc', 'pipe', 'hang']
+SEND_FAULTS = ['exc', 'pipe', 'hang', 'parthang']
 RECV_FAULTS = ['exc', 'eof', 'hang']
 
 
@@ -116,6 +118,8 @@ def _gen_serial(r, idx):
     sv['connect_delay'] = r.choice([1, 3])
   if r.random() < 0.08:
     sv['reachable'] = False
+  if r.random() < 0.2:
+    sv['send_delay'] = r.choice([1, 3, 8, 14])      # slow, partially accepted writes
   ops = [['open']]
   if sv.get('connect_delay'):
     ops.append(['adv', 4])
@@ -163,6 +167,8 @@ def _gen_mux(r, idx):
     sv['connect_delay'] = 2
   if r.random() < 0.06:
     sv['reachable'] = False
+  if r.random() < 0.15:
+    sv['send_delay'] = r.choice([1, 3, 8])
   ops = []
   if r.random() < 0.05:
     ops.append(['req', 80, None, 1])
@@ -228,6 +234,19 @@ def _grid_serial():
           ops.append(['req', 2, None, 1])
         ops += [['adv', 10], ['req', 3, 6, 1], ['adv', 10], ['req', 90, None, 1], ['adv', 6]]
         bases.append((ops, plan))
+  # a deadline that expires inside a slow / stalled write, then further requests on the same sink
+  for inflight in (1, 2, 3):
+    for dl, sd in ((6, 8), (4, 14), (6, 3), (None, 8)):
+      for plan in ({'act': 'reply', 'delay': 1}, {'act': 'reply', 'delay': 0, 'chunks': [2, 2, 5]}, {'act': 'drop'}):
+        ops = [['open'], ['req', 1, dl, 0 if inflight == 3 else 1]]
+        if inflight >= 2:
+          ops.append(['req', 2, None, 1])
+        ops += [['adv', 16], ['req', 3, 5, 1], ['adv', 16], ['req', 4, None, 1], ['adv', 20], ['req', 90, None, 1], ['adv', 20]]
+        out.append({'kind': 'serial', 'tie': 'fifo', 'server': {'default': plan, 'send_delay': sd}, 'faults': [],
+                    'ops': [list(o) for o in ops], 'seed': 0, 'grid': True})
+        for nth in (1, 2, 3):
+          out.append({'kind': 'serial', 'tie': 'fifo', 'server': {'default': plan}, 'faults': [{'op': 'send', 'nth': nth, 'what': 'parthang'}],
+                      'ops': [list(o) for o in ops], 'seed': 0, 'grid': True})
   for ops, plan in bases:
     for op, nths, kinds in (('connect', (1, 2, 3), CONNECT_FAULTS), ('send', (1, 2, 3), SEND_FAULTS),
                             ('recv', (1, 2, 3, 4, 5, 6, 7), RECV_FAULTS)):
@@ -463,24 +482,57 @@ def monitor(case, obs):
       continue                     # its deadline had already passed: it is answered with a time-out, not carried
     if not mux and [x for x in req_pos if req_pos[x][0] < rp and x not in rejected and not posts.get(x)]:
       continue                     # a call killed by Close() earlier never answers: the transport was not idle by our accounting
-    # what happened to the request's bytes
-    carried = False
+    # what happened to the request's bytes: the peer must decode exactly this request (a well-formed frame carrying
+    # this call's payload), not merely receive some bytes
+    written = False
     excused = False
+    ahead = None
+    taken = False
+
+    def cur_is_mine(q):
+      # the put between this request's 'req' and 'req-ret' markers
+      for qq in range(q, rp - 1, -1):
+        x = flat[qq][1]
+        if x[0] == 'api' and x[1] == 'req':
+          return x[2] == c
+        if x[0] == 'api' and x[1] == 'req-ret':
+          return False
+      return False
+    peer_gone = False
+    last_send_gone = False
+    saw_part = False
     for q in range(rp, len(flat)):
       k2, e2 = flat[q]
       if e2[0] == 'io' and e2[1] == 'send':
         if e2[2] == 'ok':
+          last_send_gone = len(e2) > 4
           if not mux:
-            carried = True
+            written = True
+            peer_gone = last_send_gone
             break
-        elif e2[2] in ('exc', 'reset', 'hang'):
+        elif e2[2] == 'part':
+          saw_part = True
+        elif e2[2] in ('exc', 'reset', 'hang', 'closed'):
           excused = True
           break
-      if mux and e2[0] == 'w' and e2[1] == 'write-end' and e2[2] == 'ok' and e2[3][8:10] == '02':
-        tag = int(e2[3][10:16], 16)
-        if tag == _tag_of(flat, rp):
-          carried = True
-          break
+      if mux and e2[0] == 'q' and e2[1] == 'put' and e2[2] == 2 and ahead is None and cur_is_mine(q):
+        ahead = sum(1 for _kk, x in flat[:q] if x[0] == 'q' and x[1] == 'put') - \
+            sum(1 for _kk, x in flat[:q] if x[0] == 'q' and x[1] == 'get')
+      elif mux and e2[0] == 'q' and e2[1] == 'get' and ahead is not None and not taken:
+        if ahead == 0:
+          taken = True             # the send loop took this request's frame
+        else:
+          ahead -= 1
+      if mux and taken and e2[0] == 'w' and e2[1] == 'write-end':
+        if e2[2] == 'ok':
+          written = True
+          peer_gone = last_send_gone
+        else:
+          excused = True
+        break
+      if not mux and e2[0] == 'w' and e2[1] == 'write-end' and e2[2] == 'VTimeout':
+        excused = True             # its own deadline passed inside the (slow) write: answered with a time-out
+        break
       if e2[0] == 'io' and len(e2) > 2 and (e2[1], e2[2]) in IO_FAIL:
         excused = True
         break
@@ -490,12 +542,21 @@ def monitor(case, obs):
       if mux and e2[0] == 'arwait' and e2[1] is False:
         excused = True
         break
-    if not carried and not excused:
-      if mux and any(e[0] == 'io' and e[1] == 'send' and e[2] == 'hang' for _k, e in flat[:rp]):
-        continue                   # the peer stopped reading: silence, detected by the ping
+    if excused or (written and peer_gone):
+      continue                     # (the peer had closed: the write succeeds locally, the failure shows on the next read)
+    if mux and any(e[0] == 'io' and e[1] == 'send' and e[2] in ('hang', 'part') for _k, e in flat[:rp]) and not written:
+      continue                     # the peer stopped reading: silence, detected by the ping
+    if not written and saw_part:
+      continue                     # still inside a slow write when the history ends
+    seen = any(str(r[1]) == str(c) for r in obs.get('requests', []))
+    if not written:
       got = [x[2] for x in posts.get(c, [])]
       v.append(('open-idle-but-unusable', 'transport reported Open%s, request %s was not carried (got %s)'
                 % ('' if mux else ' and idle', c, got or 'nothing')))
+    elif not seen:
+      v.append(('open-idle-but-unusable', 'transport reported Open%s, request %s was written but the peer never received it as a '
+                'well-formed request (peer saw requests %s, malformed frames %s)'
+                % ('' if mux else ' and idle', c, [r[1] for r in obs.get('requests', [])][-4:], (obs.get('malformed') or [])[-2:])))
   if mux:
     # a request on a closed transport is refused with exactly one message
     for c, (rp, k) in req_pos.items():
@@ -647,6 +708,8 @@ def serial_labels(obs):
 def mux_labels(obs):
   out = []
   holder = {}             # tag -> call that was last given it
+  fifo = []               # our mirror of the send queue (what was put and not yet taken)
+  sending = None
   cur_req = None
   initial_ping = False
   loop_ping = False
@@ -677,12 +740,17 @@ def mux_labels(obs):
         if e[1] == 'put':
           if e[2] == 2 and cur_req is not None:
             holder[e[3]] = cur_req
+            fifo.append('(Mux.IFrame %s)' % C.zlit(cur_req))
           elif e[2] == 65:
+            fifo.append('Mux.IPing')
             if initial_ping:
               initial_ping = False
             else:
               loop_ping = True
+          else:
+            fifo.append('Mux.IDiscard' if e[2] == 66 else '(Mux.IFrame %s)' % C.zlit(-1))
         else:
+          sending = fifo.pop(0) if fifo else None
           labels.append('Mux.MTake')
       elif t == 'draw':
         if loop_ping:
@@ -700,7 +768,9 @@ def mux_labels(obs):
         labels.append('Mux.MOResume')
       elif t == 'w':
         k = e[1]
-        if k == 'open-begin':
+        if k == 'close':
+          fifo = []            # _Shutdown replaces the send queue
+        elif k == 'open-begin':
           labels.append('Mux.MOStart')
         elif k == 'open-end':
           if e[2] == 'GreenletExit':
@@ -714,7 +784,10 @@ def mux_labels(obs):
             continue
           labels.append('(Mux.MWrote %s)' % _io(e[2]))
           if e[2] == 'ok':
-            wire.append(_item(e[3], holder))
+            # the frame being written is the one the send loop took last (tags are recycled: the tag alone does not
+            # identify the call); the bytes must agree with it in kind
+            it = _item(e[3], holder)
+            wire.append(sending if sending is not None and sending.split(' ')[0] == it.split(' ')[0] else it)
         elif k == 'read-end':
           if e[2] == 'GreenletExit':
             continue
